@@ -21,7 +21,8 @@ RULE = (
     "with the same name, CachedFcn iff cached was applied, re-applying cached / serializable is idempotent, a second "
     "name raises ValueError.  (history) a call history on a wrapped (cached or not, named or not) counting function: "
     "arguments from a pool of scalars (1, 1.0, 2.5), equal-but-distinct and different arrays, different same-shaped "
-    "views of one buffer (consecutive chunks, columns of one record array), fresh dict records of "
+    "views of one buffer (consecutive chunks, columns of one record array), NaN where a value stood before, lists and "
+    "tuples of different lengths, fresh dict records of "
     "scalars and of arrays, keyword arguments, repeated and changing in any interleaving: every call returns exactly "
     "(value and type) what the bare function returns and the underlying function is never called more often than the "
     "wrapper.  (expression) an expression AST over fields x, y, z (+ - * /, unary minus, comparisons, and/or/not, "
@@ -171,7 +172,7 @@ def strategy(tier):
     @st.composite
     def history(draw):
         n = draw(st.integers(1, 12 if thorough else 8))
-        pool = ("s1", "s1f", "s2.5", "a12", "a12", "a13", "a1", "d1", "d1", "d2", "da12", "da12", "da1", "dx1", "dx1", "dax1", "k1", "k1", "k2", "none", "v01", "v23", "v01", "v23", "rx", "ry", "dv01", "dv23")
+        pool = ("s1", "s1f", "s2.5", "a12", "a12", "a13", "a1", "d1", "d1", "d2", "da12", "da12", "da1", "dx1", "dx1", "dax1", "k1", "k1", "k2", "none", "v01", "v23", "v01", "v23", "rx", "ry", "dv01", "dv23", "snan", "an2", "ann", "dn", "l0", "l1", "l12", "l1", "l12", "t1", "t12")
         return {
             "mode": "history",
             "cached": draw(st.integers(0, 3)) > 0,
@@ -291,6 +292,26 @@ def _arg(token):
         return ({"x": _BASE[0:2]},), {}
     if token == "dv23":
         return ({"x": _BASE[2:4]},), {}
+    # NaN marks missing data: a NaN is a different argument from the value that stood in its place last time
+    if token == "snan":
+        return (float("nan"),), {}
+    if token == "an2":
+        return (np.array([float("nan"), 2.0]),), {}
+    if token == "ann":
+        return (np.array([float("nan"), float("nan")]),), {}
+    if token == "dn":
+        return ({"x": float("nan"), "s": "a"},), {}
+    # sequences of different lengths: a prefix (or the empty one) is a different argument
+    if token == "l0":
+        return ([],), {}
+    if token == "l1":
+        return ([25.0],), {}
+    if token == "l12":
+        return ([25.0, 40.0],), {}
+    if token == "t1":
+        return ((25.0,),), {}
+    if token == "t12":
+        return ((25.0, 40.0),), {}
     if token == "s1":
         return (1,), {}
     if token == "s1f":
@@ -327,6 +348,8 @@ def _bare(a, k=0.0):
         return "none"
     if isinstance(a, dict):
         return a["x"] * 2 + k
+    if isinstance(a, (list, tuple)):  # a variable-length record (e.g. the jets of an event)
+        return float(len(a)) + sum(a) + k
     return a * 2 + 1 + k
 
 
@@ -335,6 +358,8 @@ def _same(u, v):
         return False
     if isinstance(u, np.ndarray):
         return u.shape == v.shape and u.dtype == v.dtype and np.array_equal(u, v, equal_nan=True)
+    if isinstance(u, float) and u != u:
+        return v != v
     return u == v
 
 
